@@ -460,7 +460,7 @@ func init() {
 				}
 			}},
 			{Name: "aggregates", Quick: sizes(4), Thorough: sizes(6), ShardDepth: 3, Run: func(c *explore.Chooser, x *explore.Ctx, n int) {
-				nums := []interface{}{0.0, 1.0, -2.0, 0.5, 1e308}
+				nums := []interface{}{0.0, 1.0, -2.0, 0.5, 1e308, -1e308}
 				arr := c15Array(c, n, nums)
 				fn := c.Choose(5)
 				mode := c.Choose(4) // plain, one foreign member, scalar, literal empty
@@ -532,7 +532,16 @@ func init() {
 				case "count":
 					c15Expect(x, prog, doc, float64(len(list)), false)
 				case "sum":
-					c15Expect(x, prog, doc, sum, math.IsInf(sum, 0))
+					// the sum of the members, whatever the partial totals do on the way
+					total := new(big.Rat)
+					for _, v := range list {
+						total.Add(total, new(big.Rat).SetFloat64(v.(float64)))
+					}
+					exact, _ := total.Float64()
+					if !math.IsInf(exact, 0) && math.IsInf(sum, 0) {
+						sum = exact
+					}
+					c15Expect(x, prog, doc, sum, math.IsInf(exact, 0))
 				case "max":
 					if len(list) == 0 {
 						c15Expect(x, prog, doc, ref.U, false)
@@ -556,6 +565,9 @@ func init() {
 						total.Add(total, new(big.Rat).SetFloat64(v.(float64)))
 					}
 					mean, _ := total.Quo(total, new(big.Rat).SetInt64(int64(len(list)))).Float64()
+					if !math.IsInf(sum, 0) {
+						mean = sum / float64(len(list)) // ordinary floating-point summation, member by member
+					}
 					c15Expect(x, prog, doc, mean, false)
 				}
 			}},
